@@ -13,3 +13,61 @@ def units(tier, seed):
                ("LSTEL", 2, 2)]
         t = 1500
     return pipeline_units("C10", cfg, t)
+
+
+# ---------------------------------------------------------------- templated -> source slice mapping used by every fix
+
+def make_t2s(shape):
+    import z3
+    from harness import c01
+    from symlite.values import fresh_int, hash_zero, lift, sym_len, sym_max, sym_min
+    import sqlfluff.core.templaters.base as tb
+
+    def factory(excluded=frozenset()):
+        tb.len = sym_len
+        tb.min, tb.max = sym_min, sym_max
+
+        def harness(c):
+            tf, n, T = c01.build_file(c, shape)
+            a = fresh_int(c, "tpl_start", 0)
+            b = fresh_int(c, "tpl_stop")
+            c.assume(z3.And(a.e <= b.e, b.e <= lift(T)))
+            try:
+                out = tf.templated_slice_to_source_slice(slice(a, b))  # REAL
+            except ValueError:
+                # documented: a zero-length slice strictly inside a non-literal slice cannot be mapped
+                c.witness("declared_value_error")
+                inside_nonliteral = z3.Or(*[z3.And(lift(s.templated_slice.start) < a.e, a.e < lift(s.templated_slice.stop))
+                                            for s in tf.sliced_file if s.slice_type != "literal"] or [z3.BoolVal(False)])
+                return z3.And(a.e == b.e, inside_nonliteral)
+            ok = z3.And(lift(out.start) >= 0, lift(out.start) <= lift(out.stop), lift(out.stop) <= lift(n))
+            for s in tf.sliced_file:
+                if s.slice_type == "literal":
+                    ts, te = lift(s.templated_slice.start), lift(s.templated_slice.stop)
+                    strictly_inside = z3.And(ts < a.e, b.e < te)
+                    off = lift(s.source_slice.start) - ts
+                    ok = z3.And(ok, z3.Implies(strictly_inside, z3.And(lift(out.start) == a.e + off, lift(out.stop) == b.e + off)))
+            c.witness("mapped")
+            return ok
+        return harness
+    return factory
+
+
+_orig_units = units
+
+
+def units(tier, seed):  # noqa: F811
+    from lib.runner import Unit
+    us = _orig_units(tier, seed)
+    shapes = ["L", "LTL", "LSLEL", "LCL", "loop2", "ifelse_first"] if tier == "quick" else \
+        ["L", "LTL", "TL", "LT", "LSLEL", "LCL", "LZL", "loop2", "ifelse_first", "ifelse_second", "LTLTL", "loop_if", "LTTL"]
+    for sh in shapes:
+        us.append(Unit(
+            name=f"c10.templated_slice_to_source_slice[{sh}]",
+            functions=["sqlfluff.core.templaters.base.TemplatedFile.templated_slice_to_source_slice", "TemplatedFile._find_slice_indices_of_templated_pos"],
+            bounds={"slice shape": sh, "all lengths and the queried templated slice": "unbounded"},
+            make=make_t2s(sh), replay="concrete",
+            stubs=["texts opaque (AbsStr)", "base.len/min/max -> symbolic versions"],
+            assumptions=["the TemplatedFile satisfies the C07 tiling invariant"],
+            witnesses_required=["mapped"], sharded=True, timeout_s=300 if tier == "quick" else 1200))
+    return us
